@@ -828,7 +828,19 @@ func (g *G) assignStmt() {
 	case t.K == "bool":
 		g.line("%s = %s", v.Name, g.expr(t, 2))
 	case t.K == "slice":
-		switch rx.Weighted(g.rt, "sliceassign", 5, 3, 2, 2) {
+		switch rx.Weighted(g.rt, "sliceassign", 5, 3, 2, 2, 2) {
+		case 4:
+			if v.MinLen < 2 || !t.Elem.printable() {
+				g.line("%s = append(%s, %s)", v.Name, v.Name, g.expr(t.Elem, 1))
+				break
+			}
+			// a shortened view of the slice is appended to and the result kept elsewhere: the view keeps its length,
+			// the element behind it in the shared array is overwritten, the original keeps its length too
+			g.meta.feat("appendalias")
+			sa, sb := g.fresh("sa"), g.fresh("sb")
+			g.line("%s := %s[:1]", sa, v.Name)
+			g.line("%s := append(%s, %s)", sb, sa, g.expr(t.Elem, 1))
+			g.line("fmt.Println(\"alias\", len(%s), len(%s), len(%s), %s, %s)", sa, sb, v.Name, sa, sb)
 		case 0:
 			g.meta.feat("append")
 			n := rx.Range(g.rt, "nappend", 1, 3)
